@@ -36,6 +36,50 @@ func gen(tier string, seed uint64, idx int) interface{} {
 	var inflight []uint16
 	stage := map[uint16]int{}
 	tok := 0
+	// half of the concurrent scripts start on a ring that is wrapped (head not
+	// at slot 0) and full or nearly full, so that a registration of the
+	// concurrent phase makes it grow while acknowledgements are being recorded
+	shaped := concurrent && reqType != refmqtt.PINGREQ && r.Bool(1, 2)
+	if shaped {
+		reg := func(id uint16) {
+			tok++
+			op := Op{K: "wait", Type: reqType, ID: id, QoS: reqQoS, Size: 1 + r.Intn(12), Tok: tok}
+			if reqType == refmqtt.SUBSCRIBE {
+				op.QoS = byte(r.Intn(3))
+			}
+			sc.Prefix = append(sc.Prefix, op)
+			inflight = append(inflight, id)
+			stage[id] = 0
+		}
+		next := uint16(1)
+		for i := 0; i < 16; i++ {
+			reg(next)
+			next++
+		}
+		k := 1 + r.Intn(12)
+		for i := 0; i < k; i++ {
+			id := inflight[0]
+			for _, t := range acks {
+				sc.Prefix = append(sc.Prefix, Op{K: "ack", Type: t, ID: id})
+			}
+			inflight = inflight[1:]
+			delete(stage, id)
+		}
+		sc.Prefix = append(sc.Prefix, Op{K: "acked"})
+		for i := k - r.Intn(3); i > 0; i-- {
+			reg(next)
+			next++
+		}
+		// some of the waiting requests are half way (QoS 2 out)
+		if len(acks) > 1 {
+			for _, id := range inflight {
+				if r.Bool(1, 4) {
+					sc.Prefix = append(sc.Prefix, Op{K: "ack", Type: acks[0], ID: id})
+					stage[id] = 1
+				}
+			}
+		}
+	}
 	for i := 0; i < n; i++ {
 		var op Op
 		task := 0
@@ -47,6 +91,9 @@ func gen(tier string, seed uint64, idx int) interface{} {
 		case k < 4: // register
 			tok++
 			id := uint16(1 + r.Intn(pool))
+			if shaped && r.Bool(3, 4) {
+				id = uint16(100 + r.Intn(pool)) // new identifiers: the ring has to grow
+			}
 			if r.Bool(1, 50) {
 				id = uint16(1 + r.Intn(65535))
 			}
@@ -120,6 +167,11 @@ func shrink(script interface{}) []interface{} {
 		}
 		return &n
 	}
+	for i := len(sc.Prefix) - 1; i >= 0 && len(out) < 60; i-- {
+		n := cp()
+		n.Prefix = append(append([]Op{}, sc.Prefix[:i]...), sc.Prefix[i+1:]...)
+		out = append(out, n)
+	}
 	for t := range sc.Tasks {
 		if len(sc.Tasks[t]) > 1 {
 			n := cp()
@@ -143,8 +195,8 @@ func shrink(script interface{}) []interface{} {
 func init() {
 	world.Register(&world.Def{
 		Prop: "C13", World: "ackq", Gen: gen, NewScript: func() interface{} { return &Script{} }, Run: Run, Shrink: shrink,
-		MustProbes: []string{"grew_beyond_initial_capacity"},
-		Rule:       "script = one of the six queues of a sessions.Session (QoS 1 out, QoS 2 in, QoS 2 out, SUBSCRIBE, UNSUBSCRIBE, PINGREQ) driven by one caller with 30-330 (a quarter: 1000-5000) operations, half of those letting up to 600 requests pile up (growth beyond the initial 16 slots while wrapped), or by 1-3 registering tasks plus one processor task with 6-35 operations; operations: register (small identifier pool for collisions and reuse, refused kinds), acknowledge (oldest first or any order, unknown identifiers, PUBREC before PUBCOMP, non-acknowledgement types), collect. The harness overwrites its source buffers after every call. Oracle: list model (register ignores an identifier in flight, unknown identifiers change nothing, collect returns the maximal head prefix that carries a terminal acknowledgement, request/ack bytes and completion token identical); porcupine for concurrent histories. Non-trivial = more than two calls.",
+		MustProbes: []string{"grew_beyond_initial_capacity", "concurrent_phase_starts_on_shaped_ring"},
+		Rule:       "script = one of the six queues of a sessions.Session (QoS 1 out, QoS 2 in, QoS 2 out, SUBSCRIBE, UNSUBSCRIBE, PINGREQ) driven by one caller with 30-330 (a quarter: 1000-5000) operations, half of those letting up to 600 requests pile up (growth beyond the initial 16 slots while wrapped), or by 1-3 registering tasks plus one processor task with 6-35 operations (half of these start, after a sequential prefix judged by the list model, on a ring that is wrapped and full or nearly full, so that a concurrent registration makes it grow while acknowledgements are recorded); operations: register (small identifier pool for collisions and reuse, refused kinds), acknowledge (oldest first or any order, unknown identifiers, PUBREC before PUBCOMP, non-acknowledgement types), collect. The harness overwrites its source buffers after every call. Oracle: list model (register ignores an identifier in flight, unknown identifiers change nothing, collect returns the maximal head prefix that carries a terminal acknowledgement, request/ack bytes and completion token identical); porcupine for concurrent histories. Non-trivial = more than two calls.",
 		Real:       []string{"sessions.Session.Init, sessions.Ackqueue (Wait, Ack, Acked, grow)", "message codecs used to copy requests and acknowledgements"},
 		Stub:       []string{"sync (simulator model)", "callers (scripted tasks)"},
 		Level:      "exploration", QuickRuns: 20000, ThoroughRuns: 1000000,
